@@ -223,7 +223,7 @@ def _construct_helper():
 def _construct_bad():
     def gen(w, rng):
         spec = V.gen_array_spec(rng, w.cfg, min_rank=1)
-        return {"spec": spec, "how": rng.choice(["shape", "dupname", "shape_pairs", "dup_pairs", "dup_dims_only", "dup_helper", "dup_axes_names"]),
+        return {"spec": spec, "how": rng.choice(["shape", "dupname", "shape_pairs", "dup_pairs", "dup_dims_only", "dup_helper", "dup_axes_names", "empty_name", "nonstr_name"]),
                 "k": rng.randrange(len(spec["dims"]))}
 
     def run(w, s):
@@ -234,6 +234,19 @@ def _construct_bad():
         dims = list(spec["dims"])
         k = s["k"]
         how = s["how"]
+        if how in ("empty_name", "nonstr_name"):
+            dims[k] = "" if how == "empty_name" else 7
+            try:
+                if s["k"] % 2:
+                    bad = DimArray(vals, axes=[(d, l) for l, d in zip(labs, dims)])
+                else:
+                    bad = DimArray(vals, [Axis(l, d) for l, d in zip(labs, dims)])
+            except Exception:
+                w.count("c05:ctor_reject_ok")
+                raise
+            if "C05" in w.props:
+                raise Violation("C05", "ctor_reject", "a dimension name %r was accepted: dims %r" % (dims[k], bad.dims))
+            return None
         if how.startswith("shape"):
             labs[k] = np.concatenate([labs[k], labs[k][:1] if len(labs[k]) else np.array([0])])
             if len(labs[k]) >= 2 and labs[k][-1] == labs[k][0]:
@@ -375,7 +388,7 @@ def _take_dict():
     return gen, run
 
 
-@defop("take_axis", "index", prop16="keep", weight=1.0)
+@defop("take_axis", "index", prop16="keep", axis_keep=True, weight=1.0)
 def _take_axis():
     def gen(w, rng):
         a_id = pick_arr(w, rng, lambda a: a.ndim > 0)
@@ -397,7 +410,7 @@ def _take_axis():
     return gen, run
 
 
-@defop("compress_axis", "index", prop16="keep", weight=0.6)
+@defop("compress_axis", "index", prop16="keep", axis_keep=True, weight=0.6)
 def _compress_axis():
     def gen(w, rng):
         a_id = pick_arr(w, rng, lambda a: a.ndim > 0)
@@ -796,7 +809,7 @@ def _reindex_like():
     return gen, run
 
 
-@defop("sort_axis", "reindex", prop16="keep", weight=1.2)
+@defop("sort_axis", "reindex", prop16="keep", axis_keep=True, weight=1.2)
 def _sort_axis():
     def gen(w, rng):
         a_id = pick_arr(w, rng, lambda a: a.ndim > 0)
